@@ -481,6 +481,99 @@ def s7_insert_result(chk, db, rec_q, funcs):
     return n
 
 
+# ---- S8: the iterator returned for a newly inserted element designates that element ----------------------------------------
+def s8_new_position(chk, db, rec_q, funcs):
+    """insert / emplace build their result for a *new* element from the lower_bound position p: the element ends up at p
+    (everything from p on moves one slot up), so the returned iterator must be p. Two spellings are evaluated:
+    `pos = container.emplace(p, ...)` / `insert(p, ...)` (returns p by the container's contract) and the append-then-rotate
+    form `pos = rotate(p, end - 1, end)`, whose value is `p + (end - (end - 1))` = p + 1 by [alg.rotate] -- one past the new
+    element."""
+    n = 0
+    for f in funcs:
+        if f["n"] not in ("insert", "emplace") or f.get("body") is None:
+            continue
+        calls = [c for c in astx.all_exprs(f) if c.get("k") == "call"]
+        lb = [c for c in calls if astx.callee(c)[0] in ("lower_bound",)]
+        rots = [c for c in calls if astx.callee(c)[0] == "rotate" and len(c["a"]) == 3]
+        if not lb or not rots:
+            continue
+        n += 1
+        construct = astx.sig(f)
+        chk.instance("S8")
+        inits = {}
+        for st in astx.walk_stmts(f["body"]):
+            if st.get("k") == "decl":
+                for v in st["vars"]:
+                    if "other" not in v and v.get("init") is not None:
+                        inits[v["n"]] = v["init"]
+        pvars = set(nm for nm, init in inits.items() if any(astx.callee(c)[0] == "lower_bound" for c in calls_in(init)))
+
+        def lin(e, depth=0):
+            """(coefficient of p, coefficient of end, constant) or None"""
+            e = astx.strip_casts(e)
+            while e is not None and e.get("k") == "paren":
+                e = astx.strip_casts(e.get("e"))
+            if e is None or depth > 5:
+                return None
+            iv = astx.int_value(e)
+            if iv is not None:
+                return (0, 0, iv)
+            if e.get("k") == "ref":
+                if e["n"] in pvars:
+                    return (1, 0, 0)
+                if e["n"] in inits:
+                    return lin(inits[e["n"]], depth + 1)
+                return None
+            if e.get("k") == "bin" and e["op"] in ("+", "-"):
+                a, b = lin(e["l"], depth + 1), lin(e["r"], depth + 1)
+                if a is None or b is None:
+                    return None
+                sg = 1 if e["op"] == "+" else -1
+                return (a[0] + sg * b[0], a[1] + sg * b[1], a[2] + sg * b[2])
+            if e.get("k") == "call":
+                nm = astx.callee(e)[0]
+                if nm in ("end", "cend") and not e["a"]:
+                    return (0, 1, 0)
+                if nm == "prev" and len(e["a"]) == 1:
+                    a = lin(e["a"][0], depth + 1)
+                    return None if a is None else (a[0], a[1], a[2] - 1)
+                if nm == "next" and len(e["a"]) == 1:
+                    a = lin(e["a"][0], depth + 1)
+                    return None if a is None else (a[0], a[1], a[2] + 1)
+                if nm == "rotate" and len(e["a"]) == 3:
+                    a, b, c = (lin(x, depth + 1) for x in e["a"])
+                    if a is None or b is None or c is None:
+                        return None
+                    return (a[0] + c[0] - b[0], a[1] + c[1] - b[1], a[2] + c[2] - b[2])     # first + (last - middle)
+            return None
+        bad = unknown = None
+        for st in astx.walk_stmts(f["body"]):
+            if st.get("k") != "return" or st.get("e") is None:
+                continue
+            e = astx.strip_casts(st["e"])
+            args = e.get("a", []) if e is not None and e.get("k") in ("call", "construct", "initlist") else []
+            if len(args) == 1 and args[0] is not None and args[0].get("k") == "initlist":
+                args = args[0]["a"]
+            if len(args) != 2:
+                continue
+            flag = astx.strip_casts(args[1])
+            if flag is None or flag.get("k") != "bool" or not flag["v"]:
+                continue            # only the `(it, true)` results
+            v = lin(args[0])
+            if v is None:
+                unknown = "the iterator returned with `true` is not a linear form of the lower_bound position"
+            elif v != (1, 0, 0) and bad is None:
+                off = v[2] if (v[0], v[1]) == (1, 0) else None
+                bad = (st, "returns `%s` with `true`; by [alg.rotate] that is %s, but the new element is at the lower_bound position itself" % (
+                    astx.show(args[0], 40), ("that position %+d" % off) if off is not None else "not that position"))
+        chk.obligation("S8", construct, False if bad else (None if unknown else True))
+        if bad:
+            chk.violation("S8", construct, "new-element-position", "%s: %s" % (astx.loc(f, bad[0]), bad[1]), {"where": astx.loc(f)})
+        elif unknown:
+            chk.unknown_instance("S8", construct, unknown)
+    return n
+
+
 # ---- S4: lookup selects by equivalence -----------------------------------------------------------------------
 def pred_truth(e, elem, key, cmp_names, o):
     """truth of a predicate over (element, key) when ord(element, key) = o; None if not modelled"""
